@@ -4,18 +4,8 @@ import DadiVerif.Lemmas.DataDictStats
 namespace DadiVerif.DataDict
 open Finset DadiVerif.Gen.DD
 
-/-- one of the two branches of `if allele1 == outgroup_allele … elif allele2 == outgroup_allele …` is always taken -/
-theorem derivedSel_isSome (s : Snp) : s.derivedSel.isSome = true := by
-  unfold Snp.derivedSel Snp.outgroupUsed
-  by_cases hp : s.polarized = true
-  · have hp' := hp
-    simp only [Snp.polarized, polarizedTest, Bool.and_eq_true, Bool.or_eq_true, beq_iff_eq] at hp'
-    obtain ⟨_, h | h⟩ := hp'
-    · simp [hp, h]
-    · by_cases e : s.a1 = s.out.getD dash
-      · simp [hp, e]
-      · simp [hp, h]; split_ifs <;> rfl
-  · simp [hp, unpolOutgroupAllele]
+/-- `derived_calls` is assigned for every SNP: the generated decision table selects one of the two alleles in every row -/
+theorem derivedSel_isSome (s : Snp) : s.derivedSel.isSome = true := Snp.derivedSel_isSome' s
 
 theorem derived_length (s : Snp) : s.derived.length = s.calls.length := by
   have := derivedSel_isSome s
